@@ -13,7 +13,7 @@ import (
 // Roughly two thirds of its outputs parse; the rest exercise the error paths.
 
 var soupIdents = []string{"a", "X", "ab", "NAME", "é", "_", "tasky", "taskX", "tasks", "task_a", "task", "t", "join", "exec", "中", ""}
-var soupStrings = []string{`""`, `"a"`, `"a b"`, `" x "`, `"*.go"`, `"#"`, `"{"`, `"}"`, `"a, b"`, `"é"`, `"->"`, `":="`, `"task"`, `"x`, `x"`, `"a\t"`, `"100%"`, `"%s%d"`, `"%!v(x)%"`, `"{{.X}}"`, `"\\"`}
+var soupStrings = []string{`""`, `"a"`, `"a b"`, `" x "`, `"*.go"`, `"#"`, `"{"`, `"}"`, `"a, b"`, `"é"`, `"->"`, `":="`, `"task"`, `"x`, `x"`, `"a\t"`, `"100%"`, `"%s%d"`, `"%!v(x)%"`, `"{{.X}}"`, `"\\"`, "\"\nsrc\"", "\"\n\"", "\"\r\n x\"", "\"a\nb\""}
 var soupComments = []string{"", " ", "  ", "\t", " a", "a", " doc text", " a  b ", "#", "# x", " task t() {}", " \"q\"", " é", "0", " x := 1"}
 var soupCmds = []string{"task build", "task", "printf [%s] a\\ \\  ", "echo a  ", "echo {{.A |", "upper}} x", "echo {{", "}} y", "a\r", "echo hi\r", "x \r", "a\r\r", "b\r ", "go test ./...", "echo {{.X}}", "a", "echo hi ", "echo \"x\"", "x\t", "echo hi\t ", "ls -la | wc", "echo {{.A}}{{.B}}", "é", "echo #c", "echo }", "1x", "echo {", "echo {{.X}} ", "b  c"}
 var soupSeps = []string{"\n", "\n", "\n", "\n", "\r\n", "\r\n", " ", " ", "", "\n\n", "\t", "\r", "\n \n", " \n"}
